@@ -178,3 +178,18 @@ pub mod actix_rt { pub mod time { pub use super::super::Instant; } }
 
 /// rule R24 (`f?` events): 1 if the traced call returned Ok, 0 otherwise
 pub open spec fn r24_bit(b: bool) -> int { if b { 1 } else { 0 } }
+
+/// std::cell::Cell: interior mutability through `&self`.  Nothing links what `get` returns to an earlier `set` — a
+/// shared reference carries no history here — so code that DECIDES something from a Cell is verified for every value
+/// the cell might hold (sound: a superset of the real behaviours; a contract that needs the link fails, undecided never).
+#[verifier::external_body]
+#[verifier::reject_recursive_types(T)]
+pub struct Cell<T> { _p: core::marker::PhantomData<T> }
+impl<T> Cell<T> {
+    #[verifier::external_body] pub fn new(v: T) -> (r: Cell<T>) { unimplemented!() }
+    #[verifier::external_body] pub fn set(&self, v: T) { unimplemented!() }
+    #[verifier::external_body] pub fn replace(&self, v: T) -> (r: T) { unimplemented!() }
+    #[verifier::external_body] pub fn into_inner(self) -> (r: T) { unimplemented!() }
+}
+impl<T: Copy> Cell<T> { #[verifier::external_body] pub fn get(&self) -> (r: T) { unimplemented!() } }
+impl<T: Default> Cell<T> { #[verifier::external_body] pub fn take(&self) -> (r: T) { unimplemented!() } }
